@@ -893,6 +893,22 @@ func proxyGen(prop string) func(c *Ctx) {
 			for _, s := range corner {
 				addProxyCase(c, rg, []byte(s), proxyScript(r), nil, "corner")
 			}
+			// later requests are served after a request that failed half way: a transaction without nonce for an address
+			// the wallet has no key for (the nonce lookup succeeds, signing fails), then transactions without nonce for
+			// an address it has
+			for rep := 0; rep < 2; rep++ {
+				okScript := map[string]map[string]any{"*": {"kind": "result", "value": "0x1"}, "eth_getTransactionCount": {"kind": "result", "value": "0x5"},
+					"eth_sendRawTransaction": {"kind": "result", "value": "0x" + hx(r.Bytes(32))}}
+				mk := func(from string, id int) []byte {
+					b, _ := json.Marshal(map[string]any{"jsonrpc": "2.0", "id": json.Number(fmt.Sprint(id)), "method": "eth_sendTransaction",
+						"params": []any{map[string]any{"from": from, "gas": "0x5208", "value": "0x1"}}})
+					return b
+				}
+				addProxyCase(c, rg, mk("0x"+hx(r.Bytes(20)), 1), okScript, nil, "history.unsignable")
+				addProxyCase(c, rg, mk("0x"+rg.accounts[0], 2), okScript, nil, "history.after-unsignable")
+				b1, b2 := mk("0x"+rg.accounts[0], 3), mk("0x"+rg.accounts[len(rg.accounts)-1], 4)
+				addProxyCase(c, rg, []byte("["+string(b1)+","+string(b2)+"]"), okScript, nil, "history.after-unsignable")
+			}
 			// large replies (well beyond one kilobyte, mostly structural characters rather than string contents): big
 			// batches of mixed members, long structured ids, large structured backend results
 			nl := 12
